@@ -21,7 +21,12 @@ for root, _, files in os.walk(ovl):
         pk = "" if rel == "autodiff" else rel[len("autodiff/"):] if rel.startswith("autodiff/") else None
         if pk is None:
             continue
-        dst = os.path.join(repo, pk, "zz_verif_" + f)
+        if "zz_verifrt" in pk:
+            if pid not in ("C04", "C05", "C06", "C07", "C20"):
+                continue
+            dst = os.path.join(repo, pk, f)
+        else:
+            dst = os.path.join(repo, pk, "zz_verif_" + f)
         if os.path.exists(dst):
             sys.exit("refusing to shadow existing file " + dst)
         rep[dst] = os.path.join(root, f)
@@ -32,10 +37,11 @@ if pid in ("C17",):
         sys.exit("threadpool module not found in module cache")
     rep[tp[0]] = os.path.join(ovl, "_threadpool", "threadpool.go")
 TICK = ("C04", "C05", "C06", "C07", "C20")
-if pid in TICK:
+if pid in TICK and not os.environ.get("VERIF_NOTICK"):
     out = os.path.join(scratch, "instr")
     os.makedirs(out, exist_ok=True)
-    r = subprocess.run(["go", "run", "./cmd/instrument", repo, out], cwd=here, capture_output=True, text=True)
+    mf = os.environ.get("VERIF_MODFILE")
+    r = subprocess.run(["go", "run"] + (["-modfile=" + mf] if mf else []) + ["./cmd/instrument", repo, out], cwd=here, capture_output=True, text=True)
     if r.returncode != 0:
         sys.stderr.write(r.stdout + r.stderr)
         sys.exit(1)
